@@ -11,22 +11,35 @@ INVS = ["TypeOK", "UsersExact", "SizeExact", "CreatingExact", "PermitsCover", "N
         "Inv_C11a", "Inv_C11b", "Inv_C13"]
 
 
-def validate(trace_path, rc, workdir, no_resize=None, timeout=3600):
-    """rc: the random driver's configuration.  Returns dict(accepted, events, first_rejected, violated, tlc_s)."""
+UINVS = ["TypeOK", "Inv_C05_places", "Inv_C05_nodrop", "Inv_C05_max", "Inv_C05_full", "Inv_C05_getters", "Inv_C05_status",
+         "Inv_C12_nounderflow", "Inv_C12_final", "Inv_C12_late"]
+
+
+def validate(trace_path, rc, workdir, no_resize=None, timeout=3600, kind="managed"):
+    """rc: the random driver's configuration.  Returns dict(accepted, events, rejected, violated, tlc_s, states).
+    The action properties are the trace-level ones (TAct_*: the step that starts the next run is exempt)."""
     os.makedirs(workdir, exist_ok=True)
     c = rc["cfg"]
-    consts = dict(
-        Tasks=c["tasks"], InitMax=c["init_max"], MaxObjs=rc.get("max_objs", 30) + 2, Budget=1000000, Lifo=bool(c.get("lifo", False)),
-        NPre=c.get("npre", 0), NPost=c.get("npost", 0), NPc=c.get("npc", 0),
-        AsyncPre=c.get("async_pre", []), AsyncPost=c.get("async_post", []), AsyncPc=c.get("async_pc", []),
-        GetModes=rc.get("modes", ["nb", "bl"]), CreateTO=rc.get("ctos", ["none"]), RecycleTO=rc.get("rtos", ["none"]),
-        HasRuntime=bool(c.get("has_runtime", True)), ResizeTargets=rc.get("resize_targets", []),
-        AllowClose=True, AllowRetain=True, AllowTake=True, AllowDropPool=True, AllowFail=True, AllowSuspend=True,
-        AllowCancel=True, AllowPanic=True, ThreadLevel=True, HoldAndWait=True)
-    invs = list(INVS)
-    if not rc.get("resize_targets") and not rc.get("allow_close"):
-        invs += ["Inv_C01", "Inv_C11noshrink"]
-    txt = configs.cfg_text(consts, invs, ["Act_C06c", "Act_C07a", "Act_C07b", "Act_C08b"], spec="TraceSpec")
+    if kind == "unmanaged":
+        consts = dict(Tasks=c["tasks"], MaxSize=c["max_size"], Preload=c.get("preload", 0), NObjs=c["nobjs"], Budget=1000000,
+                      GetModes=rc.get("modes", ["try", "bl"]), HasRuntime=bool(c.get("has_runtime", True)),
+                      AllowClose=True, AllowTake=True, AllowRemove=True, AllowAdd=True, AllowCancel=True, AllowDropPool=True)
+        txt = configs.cfg_text(consts, UINVS, ["TAct_C05_tryadd", "TAct_C12_closed"], spec="TraceSpec", base=configs.UBASE)
+        module = "UnmanagedTrace.tla"
+    else:
+        consts = dict(
+            Tasks=c["tasks"], InitMax=c["init_max"], MaxObjs=rc.get("max_objs", 30) + 2, Budget=1000000, Lifo=bool(c.get("lifo", False)),
+            NPre=c.get("npre", 0), NPost=c.get("npost", 0), NPc=c.get("npc", 0),
+            AsyncPre=c.get("async_pre", []), AsyncPost=c.get("async_post", []), AsyncPc=c.get("async_pc", []),
+            GetModes=rc.get("modes", ["nb", "bl"]), CreateTO=rc.get("ctos", ["none"]), RecycleTO=rc.get("rtos", ["none"]),
+            HasRuntime=bool(c.get("has_runtime", True)), ResizeTargets=rc.get("resize_targets", []),
+            AllowClose=True, AllowRetain=True, AllowTake=True, AllowDropPool=True, AllowFail=True, AllowSuspend=True,
+            AllowCancel=True, AllowPanic=True, ThreadLevel=True, HoldAndWait=True)
+        invs = list(INVS)
+        if not rc.get("resize_targets") and not rc.get("allow_close"):
+            invs += ["Inv_C01", "Inv_C11noshrink"]
+        txt = configs.cfg_text(consts, invs, ["TAct_C06c", "TAct_C07a", "TAct_C07b", "TAct_C08b"], spec="TraceSpec")
+        module = "ManagedTrace.tla"
     txt += "POSTCONDITION TraceAccepted\n"
     cfg = os.path.join(workdir, "trace.cfg")
     open(cfg, "w").write(txt)
@@ -36,23 +49,31 @@ def validate(trace_path, rc, workdir, no_resize=None, timeout=3600):
     n = sum(1 for _ in open(trace_path))
     t0 = time.time()
     p = subprocess.run(["timeout", str(timeout), "tlc", "-workers", "1", "-metadir", os.path.join(workdir, "meta"), "-cleanup",
-                        "-noGenerateSpecTE", "-config", cfg, "ManagedTrace.tla"], cwd=os.path.join(ROOT, "spec"), env=env,
+                        "-noGenerateSpecTE", "-config", cfg, module], cwd=os.path.join(ROOT, "spec"), env=env,
                        capture_output=True, text=True)
     out = p.stdout + p.stderr
     res = {"events": n, "tlc_s": round(time.time() - t0, 2), "accepted": False, "rejected": [], "violated": []}
     for m in re.finditer(r'<<"REJECTED", (\d+), (\d+), "(\w+)", "(\w+)">>', out):
         res["rejected"].append({"run": int(m.group(1)), "seq": int(m.group(2)), "task": m.group(3), "act": m.group(4)})
     res["violated"] = re.findall(r'Invariant (\w+) is violated', out) + re.findall(r'Action property (\w+) is violated', out)
-    if "No error has been found" in out:
-        res["accepted"] = not res["rejected"]
-    elif not res["violated"]:
-        sys.stderr.write(out[-3000:])
-        raise SystemExit("TOOL-ERROR trace validation failed to run")
     dm = re.search(r'(\d+) states generated, (\d+) distinct', out)
     res["states"] = int(dm.group(2)) if dm else 0
+    if "No error has been found" in out:
+        res["accepted"] = not res["rejected"]
+        # every event was consumed: one state per event plus the initial one (the postcondition says the same)
+        if res["states"] < n:
+            sys.stderr.write(out[-2000:])
+            raise SystemExit("TOOL-ERROR trace validation consumed %d of %d events" % (res["states"], n))
+    elif res["violated"]:
+        # TLC stops at the first violated invariant: the run it happened in is the one being validated then
+        lm = re.findall(r'/\\ l = (\d+)', out)
+        res["violated_at_event"] = int(lm[-1]) if lm else 0
+    else:
+        sys.stderr.write(out[-3000:])
+        raise SystemExit("TOOL-ERROR trace validation failed to run")
     return res
 
 
 if __name__ == "__main__":
     rc = json.load(open(sys.argv[2]))
-    print(json.dumps(validate(sys.argv[1], rc, os.path.join(ROOT, "work", "tracecheck")), indent=1)[:3000])
+    print(json.dumps(validate(sys.argv[1], rc, os.path.join(ROOT, "work", "tracecheck"), kind=sys.argv[3] if len(sys.argv) > 3 else "managed"), indent=1)[:3000])
